@@ -5,7 +5,7 @@ NAMESPACE = "Rbp.Props.C04"
 REQUIRED = ["walk_eq_active", "index_is_active_chain", "competitors_invisible", "filter_spec"]
 LEAN_FILES = ["Rbp/Model/Walk.lean", "Rbp/Model/Run.lean", "Rbp/Proofs/Index.lean"]
 RULE = ("black-box runs on generated block indexes = active chain 0..T (validity VALID_SCRIPTS, data+undo) plus 1..5 competitors drawn from: header-only records at/below/above the tip, never-connected stale siblings with data "
-        "(also on top of the tip), failed blocks (FAILED_VALID / FAILED_CHILD, with and without data, also above the tip), once-active reorged-out branches of length 1..5 with tips below T, foreign f/l/F/R keys; competitor hashes are ground to sort "
+        "(also on top of the tip), failed blocks (FAILED_VALID / FAILED_CHILD, with and without data, also above the tip), once-connected then invalidated branches (validity VALID_SCRIPTS + data + FAILED_VALID/FAILED_CHILD, also reaching above the tip), once-active reorged-out branches of length 1..5 with tips below T, foreign f/l/F/R keys; competitor hashes are ground to sort "
         "before or after the active record of their height; kv insertion order shuffled. Observables: hash/hashPrev/height columns of blocks-*.csv vs the active chain (spec-level oracle) and every callback's output vs the model. "
         "non-trivial = at least one competitor with block data; distinct = distinct scenarios")
 ASSUMPTIONS = ["a competitor of validity VALID_SCRIPTS with data at a height >= T cannot be told from the active tip from blocks/index alone (no cumulative work is stored per record in a form this tool reads): outside the domain, as stated in DESIGN.md C04"]
@@ -39,7 +39,7 @@ def correspondence(ctx):
         by_cb.setdefault(cb, []).append(s)
         actives[id(s)] = active
     for cb, scns in by_cb.items():
-        impl, model = bb.check(ctx, "competitors:" + cb, scns, comparators(cb), nontrivial=lambda s, m: "stale" in s.meta["competitors"] or "failed" in s.meta["competitors"] or "reorged" in s.meta["competitors"])
+        impl, model = bb.check(ctx, "competitors:" + cb, scns, comparators(cb), nontrivial=lambda s, m: any(k in s.meta["competitors"] for k in ("stale", "failed", "reorged", "invalidated")))
         if cb != "csvdump":
             continue
         # spec-level oracle, independent of the model: the blocks file lists exactly the active chain, linked
